@@ -317,10 +317,14 @@ class Encoder(object):
         return '\n'.join(out) + '\n'
 
 
+_ctr = [0]
+
+
 def run_solver(script, timeout=60, solver=Z3, workdir=None, tag='q', mem_mb=8000):
     """-> dict(verdict in sat/unsat/unknown/timeout/error, time, output)"""
     h = hashlib.sha1(script.encode()).hexdigest()[:12]
-    path = os.path.join(workdir or '/tmp', '%s-%s.smt2' % (tag, h))
+    _ctr[0] += 1
+    path = os.path.join(workdir or '/tmp', '%s-%s-%d-%d.smt2' % (tag, h, os.getpid(), _ctr[0]))
     with open(path, 'w') as fh:
         fh.write(script)
     t0 = time.time()
